@@ -245,13 +245,16 @@ def rule_newest(ctx):
         found = norm(ifn.test)
         l, r, op = norm(cmp_.left), norm(cmp_.comparators[0]), cmp_.ops[0]
         p = fam.params[1]
-        ok = isinstance(op, ast.Gt) and l == "%s['modified']" % p and r == "self.latest_version['modified']" and any(
+        # `>=`: the family map is keyed by `modified`, so adding a second object with the SAME modified replaces the first in
+        # the map; the newest pointer must follow (with `>` it keeps pointing at an object the map no longer holds: get()
+        # answers something all_versions() / query() do not contain)
+        ok = isinstance(op, ast.GtE) and l == "%s['modified']" % p and r == "self.latest_version['modified']" and any(
             isinstance(s, ast.Assign) and norm(s.targets[0]) == "self.latest_version" and norm(s.value) == p for s in ifn.body)
         ok = ok and "self.latest_version is None" in norm(ifn.test)
     run.check(ok, R, key(fam.module.relpath, fam.qualname, "latest-is-max-modified"),
               "the memory store's latest version is not the one with the greatest modified time (depends on insertion order)",
               file=fam.module.relpath, line=fam.node.lineno, function=fam.qualname,
-              expected="if latest is None or obj['modified'] > latest['modified']: latest = obj", found=found)
+              expected="if latest is None or obj['modified'] >= latest['modified']: latest = obj", found=found)
     g = prog.cls(MEM + "::MemorySource").methods["get"]
     # lookup by id = the newest of the versions that pass the filters: either the family's newest pointer (then filtered), or
     # -- as the filesystem source does -- the maximum by `modified` over all_versions(id, filters)
